@@ -360,6 +360,32 @@ def subsets(xs):
     return [list(c) for n in range(len(xs) + 1) for c in itertools.combinations(xs, n)]
 
 
+def sess_c06_ext(seed):
+    """documents of the EXTENDED row machine (spines added with '*+' and named by a later line, several sections) and documents
+    without any measure: projections by type and the spine-type query (the header line of the projection may be a LATER line)"""
+    from . import extras
+    r = random.Random(seed)
+    if seed % 4 == 0:
+        types = [r.choice(['**kern', '**text', '**dynam']) for _ in range(r.choice([1, 2, 3]))]
+        lines = [{'ev': 'header', 'cells': [gen.lit('hdr', t) for t in types]}, {'ev': 'row', 'cells': [gen.TERM() for _ in types]}]
+    else:
+        lines = extras.ext_document(r)
+        while lines[-1]['ev'] == 'unsupported':
+            lines = extras.ext_document(r)
+    evs, doc, text = session.record_import(lines)
+    if doc is not None:
+        present = sorted({uncps(c['t']) for e in lines if e['ev'] in ('header', 'row') for c in e['cells'] if c['k'] == 'hdr'})
+        evs.append(session.record_call(doc, {'op': 'dumps', 'args': session.dumps_args(types=present), 'exact': True, 'role': 'base'}))
+        base = len(evs)
+        pool = subsets(present + ['**mens'])
+        for ts in (pool if len(pool) <= 12 else r.sample(pool, 12)):
+            evs.append(session.record_call(doc, {'op': 'dumps', 'args': session.dumps_args(types=ts), 'exact': True, 'base': base}))
+            evs.append(session.record_call(doc, {'op': 'spine_types', 'args': {'alltypes': False, 'types': [cps(t) for t in ts]}}))
+        evs.append(session.record_call(doc, {'op': 'spine_types', 'args': {'alltypes': True, 'types': []}}))
+        evs.append(session.record_call(doc, {'op': 'spine_types', 'args': {'alltypes': True, 'types': []}, '_form': 1}))
+    return finish_session(lines, evs, text, seed, features(lines) | {'extended-machine'})
+
+
 def sess_c06(seed, profile='main', dots=False):
     if dots:
         # cells that LOOK like null tokens but are not ('...', '..', '.*'): a line holding one of them is not an all-null line
